@@ -1055,7 +1055,7 @@ func genHealthCheck() (string, error) {
 		comm := commKey(cc.Comm)
 		switch {
 		case strings.HasSuffix(comm, ".timeout"):
-			for _, s := range cc.Body {
+			for _, s := range c16dUnguard(cc.Body) {
 				if k := handleCall(s); k != "" {
 					onTimeout += k
 				}
@@ -1197,7 +1197,7 @@ func idPolicy(start *ast.FuncDecl) (atTop bool, beforeArm bool, err error) {
 		comm := commKey(cc.Comm)
 		switch {
 		case strings.HasSuffix(comm, ".timeout"):
-			arms, adv := armAdvance(cc.Body)
+			arms, adv := armAdvance(c16dUnguard(cc.Body))
 			if !arms {
 				walkErr = fmt.Errorf("Start: the timeout branch does not arm the next check")
 			}
@@ -1294,4 +1294,27 @@ func handleCall(s ast.Stmt) string {
 		return "failure"
 	}
 	return ""
+}
+
+// c16dUnguard: the body of the timeout case, or, when it is a single `if <received id> == currentID { … } else { no-op }`,
+// the body of that if (the guard itself is read by gen_c16_dispatch.go: Gen/HealthDispatch timeoutGuarded)
+func c16dUnguard(body []ast.Stmt) []ast.Stmt {
+	if len(body) != 1 {
+		return body
+	}
+	ifs, ok := body[0].(*ast.IfStmt)
+	if !ok || ifs.Init != nil {
+		return body
+	}
+	b, ok := ifs.Cond.(*ast.BinaryExpr)
+	if !ok || b.Op != token.EQL || exprKey(b.Y) != "currentID" {
+		return body
+	}
+	if _, isIdent := b.X.(*ast.Ident); !isIdent {
+		return body
+	}
+	if ifs.Else != nil && touchesChecker(ifs.Else) {
+		return body
+	}
+	return ifs.Body.List
 }
